@@ -4,6 +4,7 @@
 // (2) whole tissues (lattice of two-cell placements): net contact force zero, nothing between far cells;
 // (3) single (concave) cells whose own parts are within the cut-off: no contact force, no coupling.
 #include "contact_common.hpp"
+#include "local_mesh_refiner.hpp"
 using namespace vf; using namespace cx;
 
 struct Case { int ta, tb; int depth; int base; int strength; int cut; int face; int meshb; };
@@ -161,6 +162,65 @@ static std::string run_tissue(int ox, int cut, int ta, int tb, long* nonzero, in
         for (size_t i = 0; i < ref.f.size(); i++) if ((o.f[i] - ref.f[i]).norm() > 1e-12 * (1 + ref.f[i].norm()) || o.coupling[i] != ref.coupling[i]) { char buf[300]; snprintf(buf, sizeof buf, "contact-result-depends-on-the-persistent-cell-ids: node slot %zu receives force (%.6g,%.6g,%.6g) with ids %u,%u and (%.6g,%.6g,%.6g) with ids 0,1", i, o.f[i].dx(), o.f[i].dy(), o.f[i].dz(), scheme_id(ids, 0), scheme_id(ids, 1), ref.f[i].dx(), ref.f[i].dy(), ref.f[i].dz()); return buf; } }
     if (failing_ids) *failing_ids = 0; return "";
 }
+// living tissues: (h1) two contact phases on the same cells, the neighbour having moved far away in between (nothing of the first phase may survive: no force, no coupling
+// beyond the cut-offs), with node lists that are compact / carry a free slot from a real edge collapse; (h2) a cell whose faces were re-created by a real collapse + split
+// since its caches were last refreshed (what the refiner leaves to the contact phase of the same iteration): a node on the forbidden side of such a face is pushed back.
+static std::string run_two_phases(int ta, int tb, int cut, int slots) {
+    auto mk = [&](const sc::Mesh& m, short t, unsigned id) { return sc::make_cell(m, id, make_type(t, 1), true); };
+    std::vector<cell_ptr> cells = {mk(sc::icosphere(1), (short)ta, 0), mk(sc::translated(sc::icosphere(1), 1.95, 0.1, -0.05), (short)tb, 1)};
+    if (slots) { local_mesh_refiner lmr(1e-3, 1e3, true); for (auto& c : cells) for (const edge& e0 : c->get_edge_set()) { edge e = e0; bool can = false; try { can = lmr.can_be_merged(e, c); } catch (...) {} if (!can) continue; edge_set es = c->get_edge_set(); try { lmr.merge_edge(e, c, es); } catch (...) {} break; } }
+    prepare(cells); global_simulation_parameters sp = sc::make_sim_params("unused", 0.3); sp.contact_cutoff_adhesion_ = CADH[cut]; sp.contact_cutoff_repulsion_ = CREP[cut]; Model model(sp);
+    zero_forces(cells); model.run(cells);
+    long touched = 0; for (auto& c : cells) for (node& n : c->node_lst_) if (n.is_used_) { if (n.force_.norm() > 0) touched++;
+#if CONTACT_MODEL_INDEX == 1
+        if (n.coupled_node_.has_value()) touched++;
+#elif CONTACT_MODEL_INDEX == 2
+        if (!n.coupled_nodes_map_.empty()) touched++;
+#endif
+    }
+    // the neighbour leaves
+    for (node& n : cells[1]->node_lst_) if (n.is_used_) n.pos_ = n.pos_ + vec3(40, 0, 0);
+    prepare(cells); zero_forces(cells); model.run(cells);
+    std::string err; char buf[300];
+    for (unsigned ci = 0; ci < cells.size() && err.empty(); ci++) for (unsigned ni = 0; ni < cells[ci]->node_lst_.size() && err.empty(); ni++) { node& n = cells[ci]->node_lst_[ni]; if (!n.is_used_) continue;
+        if (n.force_.norm() > 0) { snprintf(buf, sizeof buf, "contact-force-between-cells-farther-apart-than-the-cutoffs: node %u of cell %u after the neighbour moved 40 cell sizes away", ni, ci); err = buf; }
+#if CONTACT_MODEL_INDEX == 1
+        if (n.coupled_node_.has_value()) { snprintf(buf, sizeof buf, "coupling-beyond-the-adhesion-cutoff: node %u of cell %u is still coupled after the neighbour moved 40 cell sizes away", ni, ci); err = buf; }
+#elif CONTACT_MODEL_INDEX == 2
+        if (!n.coupled_nodes_map_.empty()) { snprintf(buf, sizeof buf, "coupling-beyond-the-adhesion-cutoff: node %u of cell %u is still coupled after the neighbour moved 40 cell sizes away", ni, ci); err = buf; }
+#endif
+    }
+    for (auto& c : cells) c->clear_data();
+    if (err.empty() && !touched) return "INTERNAL the first contact phase produced nothing";
+    return err;
+}
+static std::string run_recreated_faces(int ta, int tb, int cut, long* probes) {
+    // cell B: a cube whose caches are fresh, then remeshed by the real refiner operations (a collapse frees two face slots, a split re-uses them); no refresh afterwards
+    cell_ptr B = sc::make_cell(sc::translated(sc::subdivide_flat(sc::cube12(), ""), -0.5, -0.5, -0.5), 1, make_type((short)tb, 1), true); for (unsigned i = 0; i < B->face_lst_.size(); i++) B->face_lst_[i].type_id_ = 0;
+    { std::vector<cell_ptr> one = {B}; prepare(one); B->set_id(1); B->set_local_id(1); }
+    local_mesh_refiner lmr(1e-3, 1e3, true);
+    for (const edge& e0 : B->get_edge_set()) { edge e = e0; bool can = false; try { can = lmr.can_be_merged(e, B); } catch (...) {} if (!can) continue; edge_set es = B->get_edge_set(); try { lmr.merge_edge(e, B, es); } catch (...) {} break; }
+    { double best = -1; std::optional<edge> pick; for (const edge& e0 : B->get_edge_set()) { double l2 = (B->node_lst_[e0.n1()].pos_ - B->node_lst_[e0.n2()].pos_).squared_norm(); if (l2 > best) { best = l2; pick = e0; } } if (pick) { edge e = *pick; edge_set es = B->get_edge_set(); try { lmr.split_edge(e, B, es); } catch (...) {} } }
+    { sc::OracleOpts oo; oo.check_cached_geometry = false; if (!sc::oracle_mesh(*B, oo).empty()) { B->clear_data(); return "skip"; } }
+    global_simulation_parameters sp = sc::make_sim_params("unused", 0.3); sp.contact_cutoff_adhesion_ = CADH[cut]; sp.contact_cutoff_repulsion_ = CREP[cut]; Model model(sp); const double crep = CREP[cut];
+    const bool pos_forbidden = forbidden_is_positive_side(ta, tb); std::string err; char buf[300];
+    for (unsigned fi = 0; fi < B->face_lst_.size() && err.empty(); fi++) { face& f = B->face_lst_[fi]; if (!f.is_used_) continue;
+        const vec3 a = B->node_lst_[f.n1_id_].pos_, b = B->node_lst_[f.n2_id_].pos_, c = B->node_lst_[f.n3_id_].pos_; vec3 nn = (b - a).cross(c - a); const double A2 = nn.norm(); if (A2 < 1e-6) continue; const vec3 nf = nn / A2;   // the true outward normal of the triangle as it is now
+        const double s = (pos_forbidden ? 1.0 : -1.0) * 0.4 * crep; const vec3 p = (a + b + c) / 3. + nf * s; const double sgn = s > 0 ? 1.0 : -1.0;
+        vec3 u = std::fabs(nf.dx()) < 0.9 ? vec3(1, 0, 0).cross(nf).normalize() : vec3(0, 1, 0).cross(nf).normalize(); vec3 v = nf.cross(u); const double h = 0.3;
+        vec3 q1 = p + nf * (sgn * h) + u * 0.2, q2 = p + nf * (sgn * h) + u * (-0.1) + v * 0.17, q3 = p + nf * (sgn * h) + u * (-0.1) + v * (-0.17);
+        sc::Mesh ma; ma.pos = {p.dx(), p.dy(), p.dz(), q1.dx(), q1.dy(), q1.dz(), q2.dx(), q2.dy(), q2.dz(), q3.dx(), q3.dy(), q3.dz()}; ma.tri = {0, 1, 2, 0, 2, 3, 0, 3, 1, 1, 3, 2}; if (sgn < 0) ma.tri = {0, 2, 1, 0, 3, 2, 0, 1, 3, 1, 2, 3};
+        cell_ptr A = sc::make_cell(ma, 0, make_type((short)ta, 1), true); { std::vector<cell_ptr> one = {A}; prepare(one); }
+        node& n0 = A->node_lst_[0]; if (!node_prefilter(*A, n0) || !pair_prefilter(n0, f)) { A->clear_data(); continue; }
+        std::vector<cell_ptr> both = {A, B}; zero_forces(both); narrow(model, A, B, n0, &f); (*probes)++;
+        const vec3 Fn = n0.force_; const bool coupling_pair = (CONTACT_MODEL_INDEX != 0) && ta == 0 && tb == 0; const vec3 back = nf * (-s);   // from the node towards the surface
+        if (!coupling_pair && B->get_cell_type()->face_types_[f.type_id_].repulsion_strength_ > 0) {
+            if (Fn.norm() == 0) { snprintf(buf, sizeof buf, "no-repulsion-for-a-node-on-the-forbidden-side-within-the-cutoff: face %u of a cell remeshed since its last refresh (cached normal (%.3g,%.3g,%.3g), cached area %.3g)", fi, f.normal_.dx(), f.normal_.dy(), f.normal_.dz(), f.area_); err = buf; }
+            else if (!(Fn.dot(back) > 0)) { snprintf(buf, sizeof buf, "force-does-not-push-the-node-back-to-the-surface: face %u of a cell remeshed since its last refresh, F.(surface - node) = %.6g", fi, Fn.dot(back)); err = buf; } }
+        A->clear_data(); }
+    B->clear_data(); return err;
+}
+
 static std::string run_self(int type, int cut, int ids = 0) {
     // a dumbbell-like concave cell: two lobes whose surfaces come within the cut-off of each other
     sc::Mesh m = sc::icosphere(2); for (size_t i = 0; i < m.nv(); i++) { double x = m.pos[3*i]; double r = 0.25 + 0.75 * x * x; m.pos[3*i+1] *= r; m.pos[3*i+2] *= r; if (std::fabs(x) < 0.2) { m.pos[3*i+1] *= 0.1; m.pos[3*i+2] *= 0.1; } }
@@ -186,6 +246,10 @@ static void explore(Result& R) {
     for (int ox = -12; ox <= 12; ox++) for (int cu = 0; cu < 2; cu++) for (int ta = 0; ta < 5; ta++) for (int tb = 0; tb < 5; tb++) { tissues++; std::string e = run_tissue(ox, cu, ta, tb, &nonzero);
         if (!e.empty()) R.violation(clause_of(e) + "|types=" + std::to_string(ta) + ">" + std::to_string(tb), "two icospheres, offset " + std::to_string(0.25 * ox) + ", types " + std::to_string(ta) + "," + std::to_string(tb) + ": " + e, "mode=tissue\nox=" + std::to_string(ox) + "\ncut=" + std::to_string(cu) + "\nta=" + std::to_string(ta) + "\ntb=" + std::to_string(tb) + "\n"); }
     for (int t = 0; t < 5; t++) for (int cu = 0; cu < 2; cu++) for (int ids = 0; ids < N_ID_SCHEMES; ids++) { tissues++; std::string e = run_self(t, cu, ids); if (!e.empty()) R.violation(clause_of(e), "single concave cell of type " + std::to_string(t) + " with id " + std::to_string(scheme_id(ids, 0)) + " at list position 0: " + e, "mode=self\ntype=" + std::to_string(t) + "\ncut=" + std::to_string(cu) + "\nids=" + std::to_string(ids) + "\n"); }
+    { long two = 0, probes = 0; for (int ta = 0; ta < 5; ta++) for (int tb = 0; tb < 5; tb++) for (int cu = 0; cu < 2; cu++) { for (int sl = 0; sl < 2; sl++) { std::string e = run_two_phases(ta, tb, cu, sl); two++; tissues++; if (e.rfind("INTERNAL", 0) == 0) { if (ta == 0 && tb == 0) { R.internal_error = e; return; } continue; }
+            if (!e.empty()) R.violation(clause_of(e) + "|types=" + std::to_string(ta) + ">" + std::to_string(tb) + "|two-phases", "two icospheres 0.05 below contact, then 40 cell sizes apart, types " + std::to_string(ta) + "," + std::to_string(tb) + (sl ? ", node lists with a free slot" : "") + ": " + e, "mode=twophase\nta=" + std::to_string(ta) + "\ntb=" + std::to_string(tb) + "\ncut=" + std::to_string(cu) + "\nslots=" + std::to_string(sl) + "\n"); }
+          std::string e = run_recreated_faces(ta, tb, cu, &probes); tissues++; if (!e.empty() && e != "skip") R.violation(clause_of(e) + "|types=" + std::to_string(ta) + ">" + std::to_string(tb) + "|recreated-faces", "types " + std::to_string(ta) + "," + std::to_string(tb) + ": " + e, "mode=recreated\nta=" + std::to_string(ta) + "\ntb=" + std::to_string(tb) + "\ncut=" + std::to_string(cu) + "\n"); }
+      R["two_phase_tissues"] = two; R["probes_of_faces_recreated_since_the_last_refresh"] = probes; if (!probes && R.violations.empty()) R.internal_error = "no re-created face was probed (vacuous)"; }
     long within = 0, beyond = 0, rforces = 0, lattices = 0;
     for (int tri = 0; tri < 5; tri++) for (int rot = 0; rot < 3; rot++) for (int cu = 0; cu < 2; cu++) for (int ta = 0; ta < 5; ta++) for (int tb = 0; tb < 5; tb++) { lattices++; std::string e = run_range(tri, rot, cu, ta, tb, &within, &beyond, &rforces);
         if (!e.empty()) { int only = atoi(e.c_str() + e.rfind("lattice index ") + 14); R.violation(clause_of(e) + "|types=" + std::to_string(ta) + ">" + std::to_string(tb) + "|range-lattice", e, "mode=range\ntri=" + std::to_string(tri) + "\nrot=" + std::to_string(rot) + "\ncut=" + std::to_string(cu) + "\nta=" + std::to_string(ta) + "\ntb=" + std::to_string(tb) + "\nonly=" + std::to_string(only) + "\nlat=" + std::to_string(LAT) + "\n"); } }
@@ -201,6 +265,8 @@ static void explore(Result& R) {
 static int replay(const Replay& rp, Result& R) { std::string e1, e2, m = rp.get("mode"); long nz = 0;
     if (m == "pair") { Case c; std::istringstream i(rp.get("case")); i >> c.ta >> c.tb >> c.depth >> c.base >> c.strength >> c.cut >> c.face >> c.meshb; e1 = run_case(c); e2 = run_case(c); printf("%s\n", case_json(c).c_str()); }
     else if (m == "range") { if (rp.geti("lat", 13) == 27) { LAT = 27; LAT_STEP = 0.15; } long a = 0, b = 0, c = 0; auto go = [&] { return run_range((int)rp.geti("tri"), (int)rp.geti("rot"), (int)rp.geti("cut"), (int)rp.geti("ta"), (int)rp.geti("tb"), &a, &b, &c, (int)rp.geti("only", -1)); }; e1 = go(); e2 = go(); }
+    else if (m == "twophase") { auto go = [&] { return run_two_phases((int)rp.geti("ta"), (int)rp.geti("tb"), (int)rp.geti("cut"), (int)rp.geti("slots")); }; e1 = go(); e2 = go(); }
+    else if (m == "recreated") { long pr = 0; auto go = [&] { return run_recreated_faces((int)rp.geti("ta"), (int)rp.geti("tb"), (int)rp.geti("cut"), &pr); }; e1 = go(); e2 = go(); }
     else if (m == "tissue") { e1 = run_tissue((int)rp.geti("ox"), (int)rp.geti("cut"), (int)rp.geti("ta"), (int)rp.geti("tb"), &nz); e2 = run_tissue((int)rp.geti("ox"), (int)rp.geti("cut"), (int)rp.geti("ta"), (int)rp.geti("tb"), &nz); }
     else { int ids = (int)rp.geti("ids", 0); e1 = run_self((int)rp.geti("type"), (int)rp.geti("cut"), ids); e2 = run_self((int)rp.geti("type"), (int)rp.geti("cut"), ids); }
     if (e1 != e2) { printf("replay diverged\n"); return 0; } printf("%s\n", e1.c_str()); if (!e1.empty()) { R.violation(clause_of(e1), e1, ""); return 1; } return 0; }
